@@ -1,6 +1,7 @@
 import QV.C14.Lemmas
 import Mathlib.Data.Nat.Bitwise
 import Mathlib.Data.Fintype.Card
+import Mathlib.Data.Fintype.EquivFin
 /-
 C14 lifting theorem: `lifted_gate_matrix` (the swap network + conjugation by the permutation matrix) computes
 `liftSpec` (the bit-manipulation specification), for EVERY matrix `M`, every number of qubits `n` and every
@@ -198,6 +199,489 @@ theorem qubitAdjacentLift_eq {M : Mat K} {k : Nat} (hMr : M.r = 2 ^ k) (p n : Na
       else .ok (kron (eye (2 ^ (n - p - k))) (kron M (eye (2 ^ p)))) := by
   unfold qubitAdjacentLift
   simp only [hMr, Nat.log2_two_pow]
+
+/-- transposition of the adjacent positions `p`, `p+1` -/
+def sw (p q : Nat) : Nat := if q = p then p + 1 else if q = p + 1 then p else q
+
+/-- `qubit_map.swap(p, p+1)` -/
+def swapList (arr : List Nat) (p : Nat) : List Nat := (arr.set p (arr.getD (p + 1) 0)).set (p + 1) (arr.getD p 0)
+
+theorem swapAt_eq (arr : List Nat) (p : Nat) :
+    swapAt arr p (p + 1) = if p + 1 < arr.length then .ok (swapList arr p) else .crash "index out of bounds" := by
+  unfold swapAt swapList
+  by_cases h : p + 1 < arr.length
+  · have : p < arr.length := by omega
+    simp [h, this]
+  · have : ¬ (p < arr.length ∧ p + 1 < arr.length) := by omega
+    simp [h, this]
+
+@[simp] theorem length_swapList (arr : List Nat) (p : Nat) : (swapList arr p).length = arr.length := by
+  simp [swapList]
+
+theorem getD_swapList {arr : List Nat} {p : Nat} (h : p + 1 < arr.length) (q : Nat) :
+    (swapList arr p).getD q 0 = arr.getD (sw p q) 0 := by
+  unfold swapList sw
+  simp only [List.getD_eq_getElem?_getD, List.getElem?_set, List.length_set]
+  have hp0 : p < arr.length := by omega
+  by_cases h1 : q = p
+  · rw [h1]; simp [h, hp0]
+  · by_cases h2 : q = p + 1
+    · rw [h2]; simp [h, hp0]
+    · have h3 : ¬ p + 1 = q := fun e => h2 e.symm
+      have h4 : ¬ p = q := fun e => h1 e.symm
+      simp [h1, h2, h3, h4]
+
+theorem sw_lt {p q n : Nat} (hp : p + 2 ≤ n) (hq : q < n) : sw p q < n := by
+  unfold sw; split_ifs <;> omega
+
+theorem sw_sw (p q : Nat) : sw p (sw p q) = q := by
+  unfold sw; split_ifs <;> omega
+
+theorem swapMat_get {m m' : Nat} (hm : m < 4) (hm' : m' < 4) :
+    (swapMat : Mat K).get m m' = if m.testBit 0 = m'.testBit 1 ∧ m.testBit 1 = m'.testBit 0 then 1 else 0 := by
+  interval_cases m <;> interval_cases m' <;>
+    simp [swapMat, Mat.ofRows, Mat.get_build', Nat.testBit_eq_decide_div_mod_eq]
+
+/-- one step of the swap network: a lifted SWAP at `(p, p+1)` times the bit-permutation matrix of `arr` is the
+bit-permutation matrix of `arr` with positions `p`, `p+1` exchanged -/
+theorem swap_mul_permMat {n p : Nat} {arr : List Nat} (hlen : arr.length = n) (hp : p + 2 ≤ n) :
+    mul (kron (eye (2 ^ (n - p - 2))) (kron (swapMat : Mat K) (eye (2 ^ p)))) (permMat n arr)
+      = permMat n (swapList arr p) := by
+  have hr : (swapMat : Mat K).r = 2 ^ 2 := rfl
+  have hc : (swapMat : Mat K).c = 2 ^ 2 := rfl
+  obtain ⟨d1, d2⟩ := adjLift_dims (K := K) hr hc hp
+  refine Mat.ext' (wf_mul _ _) (wf_build _ _ _) ?_ rfl ?_
+  · simp only [mul_r]; rw [d1]; rfl
+  intro a x ha hx
+  simp only [mul_r, mul_c] at ha hx
+  rw [d1] at ha
+  have hx' : x < 2 ^ n := hx
+  rw [get_mul_permMat hlen d2 (by rw [d1]; exact ha) hx', get_permMat ha hx']
+  have hy : bitIdx arr x < 2 ^ n := by have := bitIdx_lt arr x; rwa [hlen] at this
+  have hy' : bitIdx (swapList arr p) x < 2 ^ n := by
+    have := bitIdx_lt (swapList arr p) x; rwa [length_swapList, hlen] at this
+  rw [get_adjLift hr hc hp ha hy, swapMat_get (field_lt _ _ _) (field_lt _ _ _)]
+  have hbit : ∀ q, (bitIdx arr x).testBit q = (decide (q < n) && x.testBit (arr.getD q 0)) := by
+    intro q; rw [testBit_bitIdx, hlen]
+  have hbit' : ∀ q, q < n → (bitIdx (swapList arr p) x).testBit q = (bitIdx arr x).testBit (sw p q) := by
+    intro q hq
+    rw [testBit_bitIdx, hbit, length_swapList, hlen, getD_swapList (by omega)]
+    simp [hq, sw_lt hp hq]
+  have hsw1 : sw p p = p + 1 := by simp [sw]
+  have hsw2 : sw p (p + 1) = p := by simp [sw]
+  have hsw3 : ∀ q, q ≠ p → q ≠ p + 1 → sw p q = q := by intro q h1 h2; simp [sw, h1, h2]
+  have key : ((a / 2 ^ (p + 2) = bitIdx arr x / 2 ^ (p + 2) ∧ a % 2 ^ p = bitIdx arr x % 2 ^ p) ∧
+      ((field p 2 a).testBit 0 = (field p 2 (bitIdx arr x)).testBit 1 ∧
+        (field p 2 a).testBit 1 = (field p 2 (bitIdx arr x)).testBit 0)) ↔ a = bitIdx (swapList arr p) x := by
+    rw [eq_iff_testBit_lt ha hy', div_pow_eq_iff, mod_pow_eq_iff]
+    simp only [testBit_field, Nat.add_zero, show (decide (0 < 2)) = true from rfl,
+      show (decide (1 < 2)) = true from rfl, Bool.true_and]
+    constructor
+    · rintro ⟨⟨c1, c2⟩, c3, c4⟩ q hq
+      rw [hbit' q hq]
+      by_cases h1 : q = p
+      · rw [h1, hsw1]; exact c3
+      · by_cases h2 : q = p + 1
+        · rw [h2, hsw2]; exact c4
+        · rw [hsw3 q h1 h2]
+          by_cases h3 : q < p
+          · exact c2 q h3
+          · exact c1 q (by omega)
+    · intro hD
+      refine ⟨⟨?_, ?_⟩, ?_, ?_⟩
+      · intro q hq
+        by_cases hqn : q < n
+        · rw [hD q hqn, hbit' q hqn, hsw3 q (by omega) (by omega)]
+        · rw [testBit_false_of_lt ha (by omega), testBit_false_of_lt hy (by omega)]
+      · intro q hq
+        rw [hD q (by omega), hbit' q (by omega), hsw3 q (by omega) (by omega)]
+      · rw [hD p (by omega), hbit' p (by omega), hsw1]
+      · rw [hD (p + 1) (by omega), hbit' (p + 1) (by omega), hsw2]
+  by_cases h : a = bitIdx (swapList arr p) x
+  · obtain ⟨h1, h2⟩ := key.mpr h
+    rw [if_pos h1, if_pos h2, if_pos h]
+  · rw [if_neg h]
+    by_cases h1 : a / 2 ^ (p + 2) = bitIdx arr x / 2 ^ (p + 2) ∧ a % 2 ^ p = bitIdx arr x % 2 ^ p
+    · rw [if_pos h1, if_neg (fun h2 => h (key.mp ⟨h1, h2⟩))]
+    · rw [if_neg h1]
+
+/-! ## C. The swap network keeps "perm = bit-permutation matrix of qubit_arr" -/
+
+/-- `arr` lists `0..n-1` bijectively -/
+structure Good (n : Nat) (arr : List Nat) : Prop where
+  len : arr.length = n
+  lt : ∀ q, q < n → arr.getD q 0 < n
+  inj : ∀ q q', q < n → q' < n → arr.getD q 0 = arr.getD q' 0 → q = q'
+
+theorem good_range (n : Nat) : Good n (List.range n) := by
+  refine ⟨List.length_range, ?_, ?_⟩
+  · intro q hq; simp [List.getD_eq_getElem?_getD, hq]
+  · intro q q' hq hq' h; simpa [List.getD_eq_getElem?_getD, hq, hq'] using h
+
+theorem good_swapList {n p : Nat} {arr : List Nat} (h : Good n arr) (hp : p + 2 ≤ n) : Good n (swapList arr p) := by
+  have hl : p + 1 < arr.length := by rw [h.len]; omega
+  refine ⟨by rw [length_swapList, h.len], ?_, ?_⟩
+  · intro q hq; rw [getD_swapList hl]; exact h.lt _ (sw_lt hp hq)
+  · intro q q' hq hq' e
+    rw [getD_swapList hl, getD_swapList hl] at e
+    have := h.inj _ _ (sw_lt hp hq) (sw_lt hp hq') e
+    have := congrArg (sw p) this
+    rwa [sw_sw, sw_sw] at this
+
+theorem Good.surj {n : Nat} {arr : List Nat} (h : Good n arr) {v : Nat} (hv : v < n) :
+    ∃ q, q < n ∧ arr.getD q 0 = v := by
+  let f : Fin n → Fin n := fun q => ⟨arr.getD q.val 0, h.lt q.val q.isLt⟩
+  have hf : Function.Injective f := by
+    intro a b e
+    have : arr.getD a.val 0 = arr.getD b.val 0 := congrArg Fin.val e
+    exact Fin.ext (h.inj _ _ a.isLt b.isLt this)
+  obtain ⟨q, hq⟩ := Finite.surjective_of_injective hf ⟨v, hv⟩
+  exact ⟨q.val, q.isLt, congrArg Fin.val hq⟩
+
+theorem wf_permMat (n : Nat) (arr : List Nat) : (permMat n arr : Mat K).WF := wf_build _ _ _
+
+/-- the lifted SWAP at positions `(p, p+1)` -/
+def liftedSwap (n p : Nat) : Mat K := kron (eye (2 ^ (n - p - 2))) (kron (swapMat : Mat K) (eye (2 ^ p)))
+
+theorem liftedSwap_dims {n p : Nat} (hp : p + 2 ≤ n) :
+    (liftedSwap n p : Mat K).r = 2 ^ n ∧ (liftedSwap n p : Mat K).c = 2 ^ n :=
+  adjLift_dims (K := K) (M := swapMat) (k := 2) rfl rfl hp
+
+theorem swapStep_ok {n p : Nat} {pm : Mat K} {a : List Nat} {r : Mat K × List Nat}
+    (h : swapStep n (pm, a) p = .ok r) :
+    p + 2 ≤ n ∧ p + 1 < a.length ∧ r = (mul (liftedSwap n p) pm, swapList a p) := by
+  unfold swapStep at h
+  rw [qubitAdjacentLift_eq (K := K) (M := swapMat) (k := 2) rfl, swapAt_eq] at h
+  by_cases h1 : n < p + 2
+  · simp [h1, Outcome.bind] at h
+  · by_cases h2 : p + 1 < a.length
+    · simp only [h1, h2, if_false, if_true, Outcome.bind] at h
+      injection h with h
+      exact ⟨by omega, h2, h.symm⟩
+    · simp [h1, h2, Outcome.bind] at h
+
+theorem swapSteps_inv {n : Nat} {arr0 : List Nat} (h0 : arr0.length = n) :
+    ∀ (ps : List Nat) (pm : Mat K) (a : List Nat) (r : Mat K × List Nat),
+      swapSteps n ps (pm, a) = .ok r → pm.r = 2 ^ n → pm.c = 2 ^ n → Good n a →
+      mul pm (permMat n arr0) = permMat n a →
+      r.1.r = 2 ^ n ∧ r.1.c = 2 ^ n ∧ Good n r.2 ∧ mul r.1 (permMat n arr0) = permMat n r.2 := by
+  intro ps
+  induction ps with
+  | nil =>
+    intro pm a r h hr hc hg hm
+    simp only [swapSteps] at h
+    injection h with h; subst h
+    exact ⟨hr, hc, hg, hm⟩
+  | cons p ps ih =>
+    intro pm a r h hr hc hg hm
+    simp only [swapSteps] at h
+    cases hs : swapStep n (pm, a) p with
+    | ok r1 =>
+      rw [hs] at h
+      simp only [Outcome.bind] at h
+      obtain ⟨hp, hl, rfl⟩ := swapStep_ok hs
+      obtain ⟨d1, d2⟩ := liftedSwap_dims (K := K) hp
+      apply ih _ _ _ h
+      · simp only [mul_r]; exact d1
+      · simp only [mul_c]; exact hc
+      · exact good_swapList hg hp
+      · rw [Mat.mul_assoc' (by rw [d2, hr]) (by rw [hc]; rfl), hm]
+        exact swap_mul_permMat hg.len hp
+    | crash m => rw [hs] at h; simp [Outcome.bind] at h
+    | outOfFuel => rw [hs] at h; simp [Outcome.bind] at h
+
+theorem twoSwapHelper_inv {n j k : Nat} {arr : List Nat} {r : Mat K × List Nat}
+    (h : twoSwapHelper j k n arr = .ok r) (hg : Good n arr) :
+    r.1.r = 2 ^ n ∧ r.1.c = 2 ^ n ∧ Good n r.2 ∧ mul r.1 (permMat n arr) = permMat n r.2 := by
+  unfold twoSwapHelper at h
+  apply swapSteps_inv hg.len _ _ _ _ h rfl rfl hg
+  have := eye_mul (wf_permMat (K := K) n arr)
+  simpa [permMat] using this
+
+/-- what the exit test establishes: position `f - i` holds the `i`-th listed qubit -/
+theorem madeIt_true {arr : List Nat} : ∀ (qs : List Nat) (f : Nat), madeIt arr f qs = .ok true →
+    ∀ i, i < qs.length → f - i < arr.length ∧ arr.getD (f - i) 0 = qs.getD i 0 := by
+  intro qs
+  induction qs with
+  | nil => intro f _ i hi; simp at hi
+  | cons q qs ih =>
+    intro f h i hi
+    simp only [madeIt] at h
+    by_cases h1 : f < arr.length
+    · by_cases h2 : arr.getD f 0 = q
+      · rw [if_pos h1, if_pos h2] at h
+        cases i with
+        | zero => exact ⟨h1, by simpa using h2⟩
+        | succ i =>
+          have := ih (f - 1) h i (by simpa using hi)
+          rw [Nat.sub_sub, Nat.add_comm 1 i] at this
+          simpa using this
+      · rw [if_pos h1, if_neg h2] at h; simp at h
+    · rw [if_neg h1] at h; simp at h
+
+theorem sweep_inv {qs : List Nat} {n start : Nat} :
+    ∀ (is : List Nat) (perm : Mat K) (arr : List Nat) (r : Bool × Mat K × List Nat),
+      sweep qs n start is perm arr = .ok r → Good n arr → perm = permMat n arr →
+      Good n r.2.2 ∧ r.2.1 = permMat n r.2.2 ∧
+        (r.1 = true → madeIt r.2.2 (start + qs.length - 1) qs = .ok true) := by
+  intro is
+  induction is with
+  | nil =>
+    intro perm arr r h hg hp
+    simp only [sweep] at h
+    injection h with h; subst h
+    exact ⟨hg, hp, by simp⟩
+  | cons i is ih =>
+    intro perm arr r h hg hp
+    simp only [sweep] at h
+    cases hpos : position (qs.getD i 0) arr with
+    | none => rw [hpos] at h; simp at h
+    | some j =>
+      rw [hpos] at h
+      simp only at h
+      cases ht : twoSwapHelper (K := K) j (start + qs.length - 1 - i) n arr with
+      | ok r1 =>
+        rw [ht] at h
+        obtain ⟨pmod, arr'⟩ := r1
+        simp only [Outcome.bind] at h
+        obtain ⟨_, _, hg', hm⟩ := twoSwapHelper_inv ht hg
+        simp only at hg' hm
+        have hperm' : mul pmod perm = permMat n arr' := by rw [hp]; exact hm
+        cases hmade : madeIt arr' (start + qs.length - 1) qs with
+        | ok made =>
+          rw [hmade] at h
+          simp only [Outcome.bind] at h
+          cases made with
+          | true =>
+            simp only [if_true] at h
+            injection h with h; subst h
+            exact ⟨hg', hperm', fun _ => hmade⟩
+          | false =>
+            simp only [Bool.false_eq_true, if_false] at h
+            exact ih _ _ _ h hg' hperm'
+        | crash m => rw [hmade] at h; simp [Outcome.bind] at h
+        | outOfFuel => rw [hmade] at h; simp [Outcome.bind] at h
+      | crash m => rw [ht] at h; simp [Outcome.bind] at h
+      | outOfFuel => rw [ht] at h; simp [Outcome.bind] at h
+
+theorem sweeps_inv {qs : List Nat} {n start : Nat} :
+    ∀ (fuel : Nat) (right : Bool) (perm : Mat K) (arr : List Nat) (P : Mat K),
+      sweeps qs n start fuel right perm arr = .ok P → Good n arr → perm = permMat n arr →
+      ∃ arr', Good n arr' ∧ P = permMat n arr' ∧ madeIt arr' (start + qs.length - 1) qs = .ok true := by
+  intro fuel
+  induction fuel with
+  | zero => intro right perm arr P h; simp [sweeps] at h
+  | succ fuel ih =>
+    intro right perm arr P h hg hp
+    simp only [sweeps] at h
+    cases hs : sweep (K := K) qs n start
+        (if right = true then List.range qs.length else (List.range qs.length).reverse) perm arr with
+    | ok r =>
+      rw [hs] at h
+      obtain ⟨made, perm', arr'⟩ := r
+      simp only [Outcome.bind] at h
+      obtain ⟨hg', hp', hm⟩ := sweep_inv _ _ _ _ hs hg hp
+      simp only at hg' hp' hm
+      cases made with
+      | true =>
+        simp only [if_true] at h
+        injection h with h; subst h
+        exact ⟨arr', hg', hp', hm rfl⟩
+      | false =>
+        simp only [Bool.false_eq_true, if_false] at h
+        exact ih _ _ _ _ h hg' hp'
+    | crash m => rw [hs] at h; simp [Outcome.bind] at h
+    | outOfFuel => rw [hs] at h; simp [Outcome.bind] at h
+
+/-- what `permutation_arbitrary` returns when it returns: the bit-permutation matrix of a bijective
+arrangement `arr`; for two or more listed qubits the window `start … start+len-1` holds them, first
+listed qubit at the top; for one listed qubit nothing moved and `start` is that qubit. -/
+theorem permutationArbitrary_inv {qs : List Nat} {n fuel : Nat} {P : Mat K} {start : Nat}
+    (h : permutationArbitrary qs n fuel = .ok (P, start)) :
+    ∃ arr, Good n arr ∧ P = permMat n arr ∧
+      ((1 < qs.length ∧ madeIt arr (start + qs.length - 1) qs = .ok true) ∨
+       (qs.length = 1 ∧ arr = List.range n ∧ start = qs.getD 0 0)) := by
+  unfold permutationArbitrary at h
+  simp only at h
+  by_cases h1 : qs.length / 2 < (sortNat qs).length
+  · rw [if_pos h1] at h
+    by_cases h2 : (sortNat qs).getD (qs.length / 2) 0 < qs.length / 2
+    · rw [if_pos h2] at h; simp at h
+    · rw [if_neg h2] at h
+      by_cases h3 : qs.length > 1
+      · rw [if_pos h3] at h
+        cases hs : sweeps (K := K) qs n ((sortNat qs).getD (qs.length / 2) 0 - qs.length / 2) fuel true
+            (eye (2 ^ n)) (List.range n) with
+        | ok p =>
+          rw [hs] at h
+          simp only [Outcome.bind] at h
+          injection h with h
+          injection h with h1' h2'
+          subst h1'; subst h2'
+          obtain ⟨arr', hg, hp, hm⟩ := sweeps_inv _ _ _ _ _ hs (good_range n) (eye_eq_permMat n)
+          exact ⟨arr', hg, hp, Or.inl ⟨h3, hm⟩⟩
+        | crash m => rw [hs] at h; simp [Outcome.bind] at h
+        | outOfFuel => rw [hs] at h; simp [Outcome.bind] at h
+      · rw [if_neg h3] at h
+        injection h with h
+        injection h with h1' h2'
+        subst h1'
+        match qs, h1, h3, h2' with
+        | [], h1, _, _ => simp [sortNat] at h1
+        | [q], _, _, h2' =>
+          refine ⟨List.range n, good_range n, eye_eq_permMat n, Or.inr ⟨rfl, rfl, ?_⟩⟩
+          simpa [sortNat, insertSorted] using h2'.symm
+        | _ :: _ :: _, _, h3, _ => simp at h3
+  · rw [if_neg h1] at h; simp at h
+
+end
+
+/-! ## D. Conjugation by the permutation matrix and the final identification with `liftSpec` -/
+section
+variable {K : Type} [CommRing K] [StarRing K] [GateFns K] [GateLaws K]
+
+theorem conj_zero : conj (0 : K) = 0 := by rw [GateLaws.conj_eq]; exact star_zero K
+theorem conj_one : conj (1 : K) = 1 := by rw [GateLaws.conj_eq]; exact star_one K
+
+/-- `Pᴴ · (V · P)` re-indexes `V` by the bit permutation -/
+theorem conjugate_by_permMat {V : Mat K} {n : Nat} {arr : List Nat} (hlen : arr.length = n)
+    (hVr : V.r = 2 ^ n) (hVc : V.c = 2 ^ n) {r c : Nat} (hr : r < 2 ^ n) (hc : c < 2 ^ n) :
+    (mul (adjoint (permMat n arr)) (mul V (permMat n arr))).get r c = V.get (bitIdx arr r) (bitIdx arr c) := by
+  have hy : bitIdx arr r < 2 ^ n := by have := bitIdx_lt arr r; rwa [hlen] at this
+  rw [get_mul (by simpa [permMat] using hr) (by simpa [permMat] using hc)]
+  simp only [adjoint_c]
+  have hPr : (permMat n arr : Mat K).r = 2 ^ n := rfl
+  rw [hPr, Finset.sum_eq_single (bitIdx arr r)]
+  · rw [get_adjoint (by simpa [permMat] using hr) (by simpa [permMat] using hy), get_permMat hy hr,
+      get_mul_permMat hlen hVc (by rw [hVr]; exact hy) hc]
+    simp [conj_one]
+  · intro a ha hne
+    have ha' : a < 2 ^ n := by simpa using ha
+    rw [get_adjoint (by simpa [permMat] using hr) (by simpa [permMat] using ha'), get_permMat ha' hr]
+    simp [hne, conj_zero]
+  · intro h; simp at h; omega
+
+/-- positions `start … start+len-1` of `arr` hold the listed qubits, first listed qubit at the top -/
+def Placed (arr : List Nat) (start : Nat) (qs : List Nat) : Prop :=
+  ∀ i, i < qs.length →
+    start + qs.length - 1 - i < arr.length ∧ arr.getD (start + qs.length - 1 - i) 0 = qs.getD i 0
+
+theorem field_bitIdx_eq_gateIndex {arr qs : List Nat} {n start : Nat} (hlen : arr.length = n)
+    (hfit : start + qs.length ≤ n) (hpl : Placed arr start qs) (x : Nat) :
+    field start qs.length (bitIdx arr x) = gateIndex qs x := by
+  rw [eq_iff_testBit_lt (field_lt _ _ _) (gateIndex_lt _ _)]
+  intro t ht
+  rw [testBit_field, testBit_bitIdx, testBit_gateIndex _ _ _ ht, hlen]
+  have h1 : start + t < n := by omega
+  obtain ⟨_, e⟩ := hpl (qs.length - 1 - t) (by omega)
+  have : start + qs.length - 1 - (qs.length - 1 - t) = start + t := by omega
+  rw [this] at e
+  rw [e, decide_eq_true ht, decide_eq_true h1, Bool.true_and, Bool.true_and]
+
+theorem agree_iff {arr qs : List Nat} {n start : Nat} (hg : Good n arr)
+    (hfit : start + qs.length ≤ n) (hpl : Placed arr start qs) (r c : Nat) :
+    (bitIdx arr r / 2 ^ (start + qs.length) = bitIdx arr c / 2 ^ (start + qs.length) ∧
+      bitIdx arr r % 2 ^ start = bitIdx arr c % 2 ^ start) ↔ agreeOutside qs n r c = true := by
+  rw [div_pow_eq_iff, mod_pow_eq_iff]
+  have hbit : ∀ x q, (bitIdx arr x).testBit q = (decide (q < n) && x.testBit (arr.getD q 0)) := by
+    intro x q; rw [testBit_bitIdx, hg.len]
+  have hR : agreeOutside qs n r c = true ↔ ∀ p, p < n → p ∈ qs ∨ r.testBit p = c.testBit p := by
+    unfold agreeOutside
+    simp [List.all_eq_true]
+  rw [hR]
+  constructor
+  · rintro ⟨h1, h2⟩ p hp
+    by_cases hmem : p ∈ qs
+    · exact Or.inl hmem
+    · right
+      obtain ⟨q, hq, rfl⟩ := hg.surj hp
+      have hout : q < start ∨ start + qs.length ≤ q := by
+        by_contra hcon
+        have hin : start ≤ q ∧ q < start + qs.length := by omega
+        obtain ⟨_, e⟩ := hpl (start + qs.length - 1 - q) (by omega)
+        have : start + qs.length - 1 - (start + qs.length - 1 - q) = q := by omega
+        rw [this] at e
+        apply hmem
+        rw [e, List.getD_eq_getElem _ _ (by omega)]
+        exact List.getElem_mem _
+      rcases hout with hlt | hge
+      · have := h2 q hlt
+        simpa [hbit, hq] using this
+      · have := h1 q hge
+        simpa [hbit, hq] using this
+  · intro h
+    have key : ∀ q, q < n → (q < start ∨ start + qs.length ≤ q) →
+        r.testBit (arr.getD q 0) = c.testBit (arr.getD q 0) := by
+      intro q hq hout
+      rcases h _ (hg.lt q hq) with hmem | e
+      · exfalso
+        obtain ⟨i, hi, hi'⟩ := List.getElem_of_mem hmem
+        obtain ⟨hb, e⟩ := hpl i hi
+        rw [List.getD_eq_getElem _ _ hi, hi'] at e
+        have := hg.inj _ _ (by rw [hg.len] at hb; exact hb) hq e
+        omega
+      · exact e
+    constructor
+    · intro q hq
+      rw [hbit, hbit]
+      by_cases hqn : q < n
+      · rw [decide_eq_true hqn, Bool.true_and, Bool.true_and]; exact key q hqn (Or.inr hq)
+      · rw [decide_eq_false hqn, Bool.false_and, Bool.false_and]
+    · intro q hq
+      rw [hbit, hbit]
+      have hqn : q < n := by omega
+      rw [decide_eq_true hqn, Bool.true_and, Bool.true_and]; exact key q hqn (Or.inl hq)
+
+/-- **Lifting theorem (all `n`, all `M`, partial correctness).**  Whenever `lifted_gate_matrix` returns — on
+any matrix `M` of size `2^len × 2^len`, any list of `len ≥ 1` qubits, any `n`, any fuel — what it returns is
+exactly `liftSpec M qs n`. -/
+theorem liftedGateMatrix_eq_liftSpec {M : Mat K} {qs : List Nat} {n fuel : Nat} {R : Mat K}
+    (hMr : M.r = 2 ^ qs.length) (hMc : M.c = 2 ^ qs.length)
+    (h : liftedGateMatrix M qs n fuel = .ok R) : R = liftSpec M qs n := by
+  unfold liftedGateMatrix at h
+  cases hp : permutationArbitrary (K := K) qs n fuel with
+  | crash m => rw [hp] at h; simp [Outcome.bind] at h
+  | outOfFuel => rw [hp] at h; simp [Outcome.bind] at h
+  | ok ps =>
+    obtain ⟨P, start⟩ := ps
+    rw [hp] at h
+    simp only [Outcome.bind] at h
+    rw [qubitAdjacentLift_eq hMr] at h
+    by_cases hfit' : n < start + qs.length
+    · rw [if_pos hfit'] at h; simp [Outcome.bind] at h
+    · rw [if_neg hfit'] at h
+      simp only [Outcome.bind] at h
+      injection h with h
+      have hfit : start + qs.length ≤ n := by omega
+      obtain ⟨arr, hg, hP, hcase⟩ := permutationArbitrary_inv hp
+      have hpl : Placed arr start qs := by
+        rcases hcase with ⟨_, hm⟩ | ⟨h1, harr, hs⟩
+        · intro i hi
+          have := madeIt_true qs _ hm i hi
+          exact this
+        · intro i hi
+          have hi0 : i = 0 := by omega
+          subst hi0
+          rw [h1] at hfit ⊢
+          have hs' : start + 1 - 1 - 0 = start := by omega
+          rw [hs', harr, List.length_range]
+          refine ⟨by omega, ?_⟩
+          rw [← hs, List.getD_eq_getElem _ _ (by rw [List.length_range]; omega), List.getElem_range]
+      obtain ⟨dV1, dV2⟩ := adjLift_dims (K := K) hMr hMc hfit
+      subst hP
+      rw [← h]
+      refine Mat.ext' (wf_mul _ _) (wf_build _ _ _) rfl rfl ?_
+      intro r c hr hc
+      have hr' : r < 2 ^ n := hr
+      have hc' : c < 2 ^ n := hc
+      have hy1 : bitIdx arr r < 2 ^ n := by have := bitIdx_lt arr r; rwa [hg.len] at this
+      have hy2 : bitIdx arr c < 2 ^ n := by have := bitIdx_lt arr c; rwa [hg.len] at this
+      rw [conjugate_by_permMat hg.len dV1 dV2 hr' hc', get_adjLift hMr hMc hfit hy1 hy2]
+      unfold liftSpec
+      rw [get_build hr' hc', field_bitIdx_eq_gateIndex hg.len hfit hpl, field_bitIdx_eq_gateIndex hg.len hfit hpl]
+      by_cases hA : agreeOutside qs n r c = true
+      · rw [if_pos hA, if_pos ((agree_iff hg hfit hpl r c).mpr hA)]
+      · rw [if_neg hA, if_neg (fun hh => hA ((agree_iff hg hfit hpl r c).mp hh))]
 
 end
 
